@@ -240,7 +240,7 @@ func CheckPrimitiveRoot(g, q uint64, factors []uint64) (err error) {
 type subRingParametersLiteral struct {
 	Type          uint8    // Standard or ConjugateInvariant
 	LogN          uint8    // Log2 of the ring degree
-	NthRoot       uint8    // N/NthRoot
+	NthRoot       uint64   // NthRoot/N (not bounded by 255: a ring can be defined over a root of much higher order than 2N)
 	Modulus       uint64   // Modulus
 	Factors       []uint64 // Factors of Modulus-1
 	PrimitiveRoot uint64   // Primitive root used
@@ -256,7 +256,7 @@ func (s *SubRing) parametersLiteral() subRingParametersLiteral {
 		/* #nosec G115 -- N cannot be negative if SubRing is valid */
 		LogN: uint8(bits.Len64(uint64(s.N - 1))),
 		/* #nosec G115 -- NthRoot cannot be negative if SubRing is valid */
-		NthRoot:       uint8(int(s.NthRoot) / s.N),
+		NthRoot:       s.NthRoot / uint64(s.N),
 		Modulus:       s.Modulus,
 		Factors:       Factors,
 		PrimitiveRoot: s.PrimitiveRoot,
